@@ -220,6 +220,9 @@ func (l *SeqContext1) encode() []byte {
 	}
 	coverageOffset := total
 	total += l.Cov.EncodeLen()
+	if coverageOffset > 0xFFFF {
+		panic("SeqContext1 too large")
+	}
 
 	buf := make([]byte, 0, total)
 	buf = append(buf,
@@ -628,6 +631,9 @@ func (l *SeqContext3) encode() []byte {
 	total := 6 + 2*len(l.Input) + 4*len(l.Actions)
 	coverageOffsets := make([]uint16, glyphCount)
 	for i, cov := range l.Input {
+		if total > 0xFFFF {
+			panic("SeqContext3 too large")
+		}
 		coverageOffsets[i] = uint16(total)
 		total += cov.ToTable().EncodeLen()
 	}
@@ -885,6 +891,9 @@ func (l *ChainedSeqContext1) encode() []byte {
 	for i, rules := range l.Rules {
 		if rules == nil {
 			continue
+		}
+		if total > 0xFFFF {
+			panic("ChainedSeqContext1 too large")
 		}
 		chainedSeqRuleSetOffsets[i] = uint16(total)
 		total += 2 + 2*len(rules)
@@ -1509,18 +1518,27 @@ func (l *ChainedSeqContext3) encode() []byte {
 	total += 4 * len(l.Actions)
 	backtrackCoverageOffsets := make([]uint16, backtrackGlyphCount)
 	for i, set := range l.Backtrack {
+		if total > 0xFFFF {
+			panic("ChainedSeqContext3 too large")
+		}
 		backtrackCoverageOffsets[i] = uint16(total)
 		cov := set.ToTable()
 		total += cov.EncodeLen()
 	}
 	inputCoverageOffsets := make([]uint16, inputGlyphCount)
 	for i, set := range l.Input {
+		if total > 0xFFFF {
+			panic("ChainedSeqContext3 too large")
+		}
 		inputCoverageOffsets[i] = uint16(total)
 		cov := set.ToTable()
 		total += cov.EncodeLen()
 	}
 	lookaheadCoverageOffsets := make([]uint16, lookaheadGlyphCount)
 	for i, set := range l.Lookahead {
+		if total > 0xFFFF {
+			panic("ChainedSeqContext3 too large")
+		}
 		lookaheadCoverageOffsets[i] = uint16(total)
 		cov := set.ToTable()
 		total += cov.EncodeLen()
